@@ -36,7 +36,9 @@ def famMatrix (fam0 : String) (d p : Nat) : Except String (Mat GF256 p d) :=
   -- otherwise it is ignored
   let toks := fam0.splitOn "+"
   let famL := (((toks.filter fun t => t ≠ "default" && t ≠ "xor")).getLast?).getD "default"   -- "default" sets no option
-  let fam := if toks.length > 1 && toks.contains "xor" then (if p = 1 then "xor" else famL) else (((toks.filter (· ≠ "default")).getLast?).getD "default")
+  -- a custom matrix (custom:/sparse:/blocks:) is tested first in New's switch: it wins over WithFastOneParityMatrix too
+  let isCustom := famL.startsWith "custom:" || famL.startsWith "sparse:" || famL.startsWith "blocks:"
+  let fam := if toks.length > 1 && toks.contains "xor" then (if p = 1 && !isCustom then "xor" else famL) else (((toks.filter (· ≠ "default")).getLast?).getD "default")
   if hd : d = 0 then .error "InvShardNum" else
   if hp : p = 0 then .error "noparity" else
   if d + p > 256 then .error "MaxShardNum" else
@@ -86,7 +88,8 @@ def genMatrix (fam0 : String) (d p : Nat) : Except String GenOut :=
   -- `a+b+c`: several matrix options; the last matrix option decides (see `famMatrix`)
   let toks := fam0.splitOn "+"
   let famL := (((toks.filter fun t => t ≠ "default" && t ≠ "xor")).getLast?).getD "default"
-  let fam := if toks.length > 1 then (if toks.contains "xor" then (if p = 1 then "xor" else famL) else famL) else fam0
+  let isCustom := famL.startsWith "custom:" || famL.startsWith "sparse:" || famL.startsWith "blocks:"
+  let fam := if toks.length > 1 then (if toks.contains "xor" then (if p = 1 && !isCustom then "xor" else famL) else famL) else fam0
   if hd : d = 0 then .error "InvShardNum" else
   if hp : p = 0 then .error "noparity" else
   if d + p > 256 then .error "MaxShardNum" else
